@@ -25,10 +25,10 @@ Inductive ccase :=
 | CMatvec (d : list (name * list (Z * Z))) (i j r m v : name) (out : list stmt)
           (st : option (store * list (loc * Z))).
 
-Definition check (c : ccase) : bool :=
+Definition check (fx : fixes) (c : ccase) : bool :=
   match c with
   | CArr d idx a out st =>
-      match aa_apply (decls_of d) idx a with Some p => stmts_eqb p out | None => false end &&
+      match aa_apply fx (decls_of d) idx a with Some p => stmts_eqb p out | None => false end &&
       match st with
       | Some (s, expect) => match aa_sem a s with Some s' => vals_ok s' expect | None => false end
       | None => true
@@ -36,7 +36,7 @@ Definition check (c : ccase) : bool :=
   | CIntr k names x ix e p out =>
       match intr_apply k names x ix e p with Some q => stmts_eqb q out | None => false end
   | CRed d idx tmp x xi k arr mask ctx hole out st =>
-      match red_apply (decls_of d) idx tmp x xi k arr mask ctx hole with Some q => stmts_eqb q out | None => false end &&
+      match red_apply fx (decls_of d) idx tmp x xi k arr mask ctx hole with Some q => stmts_eqb q out | None => false end &&
       match st with
       | Some (s, expect) =>
           match red_stmt_sem k x xi arr mask ctx hole s with Some s' => vals_ok s' expect | None => false end
